@@ -281,13 +281,32 @@ fn log_token(vm: &vm::VM<texlang_stdlib::StdLibState>, token: Token) {
 }
 
 #[derive(Clone, Debug)]
+struct Cmd {
+    /// 0 `\catcode x=y\relax`, 1 `\endlinechar=x\relax`, 2 / 3 the same hidden in a macro
+    /// (`\def\mA{…}` in a preamble line, `\mA` in place)
+    kind: i64,
+    x: i64,
+    y: i64,
+    /// a blank between the control word and the text that follows
+    sep: bool,
+    text: String,
+}
+
+#[derive(Clone, Debug)]
 struct VmCase {
     text0: String,
-    cmds: Vec<(i64, i64, i64, String)>,
+    cmds: Vec<Cmd>,
+}
+
+/// A control sequence whose delivery changes the configuration (for the `sps` request).
+struct TriggerAt {
+    off: usize,
+    name: String,
 }
 
 impl VmCase {
-    fn dec(rest: &str) -> VmCase {
+    /// `vm` (old format, always a blank after the command) and `vmj`.
+    fn dec(rest: &str, with_sep: bool) -> VmCase {
         let v = parse_i64s(rest);
         let mut it = v.iter();
         let text0 = dec_text(&mut it);
@@ -297,7 +316,8 @@ impl VmCase {
             let kind = *it.next().unwrap();
             let x = *it.next().unwrap();
             let y = *it.next().unwrap();
-            cmds.push((kind, x, y, dec_text(&mut it)));
+            let sep = if with_sep { *it.next().unwrap() != 0 } else { true };
+            cmds.push(Cmd { kind, x, y, sep, text: dec_text(&mut it) });
         }
         VmCase { text0, cmds }
     }
@@ -305,35 +325,71 @@ impl VmCase {
         let mut v = vec![];
         enc_text(&self.text0, &mut v);
         v.push(self.cmds.len() as i64);
-        for (kind, x, y, t) in &self.cmds {
-            v.extend([*kind, *x, *y]);
-            enc_text(t, &mut v);
+        for c in &self.cmds {
+            v.extend([c.kind, c.x, c.y, c.sep as i64]);
+            enc_text(&c.text, &mut v);
         }
-        format!("vm {}", join(&v))
+        format!("vmj {}", join(&v))
     }
     fn cmd_text(kind: i64, x: i64, y: i64) -> String {
-        if kind == 0 {
+        if kind % 2 == 0 {
             format!("\\catcode {x}={y}\\relax")
         } else {
             format!("\\endlinechar={x}\\relax")
         }
     }
-    /// The source text, and for each command (char offset of the command, char offset of the
-    /// text after it).
-    fn script(&self) -> (String, Vec<(usize, usize)>) {
-        let mut s = self.text0.clone();
+    fn macro_name(i: usize) -> String {
+        format!("m{}", (b'A' + i as u8) as char)
+    }
+    /// The source text, the spans (character offsets) of what the VM executes instead of
+    /// logging, and for each command the control sequence whose delivery switches the
+    /// configuration.
+    fn script(&self) -> (String, Vec<(usize, usize)>, Vec<TriggerAt>) {
+        let mut s = String::new();
         let mut spans = vec![];
-        for (kind, x, y, t) in &self.cmds {
+        let mut triggers = vec![];
+        for (i, c) in self.cmds.iter().enumerate() {
+            if c.kind >= 2 {
+                let a = s.chars().count();
+                s.push_str(&format!("\\def\\{}{{{}}}", Self::macro_name(i), Self::cmd_text(c.kind, c.x, c.y)));
+                s.push('\n');
+                spans.push((a, s.chars().count()));
+            }
+        }
+        s.push_str(&self.text0);
+        for (i, c) in self.cmds.iter().enumerate() {
             s.push('\n');
             let a = s.chars().count();
-            s.push_str(&Self::cmd_text(*kind, *x, *y));
-            let b = s.chars().count();
-            spans.push((a, b));
-            s.push(' ');
-            s.push_str(t);
+            if c.kind >= 2 {
+                let name = Self::macro_name(i);
+                s.push('\\');
+                s.push_str(&name);
+                triggers.push(TriggerAt { off: a, name });
+            } else {
+                s.push_str(&Self::cmd_text(c.kind, c.x, c.y));
+                // whatever control sequence starts at the `\relax` ends the number (`\relaxZ` too)
+                triggers.push(TriggerAt { off: s.chars().count() - 6, name: String::new() });
+            }
+            spans.push((a, s.chars().count()));
+            if c.sep {
+                s.push(' ');
+            }
+            s.push_str(&c.text);
         }
-        (s, spans)
+        (s, spans, triggers)
     }
+}
+
+/// Characters at and above U+0100 whose low byte is an ASCII character with a special default
+/// category (2-, 3- and 4-byte encodings).
+fn wide_twins() -> Vec<char> {
+    let mut v = vec![];
+    for b in [0x5Cu32, 0x7B, 0x7D, 0x24, 0x26, 0x23, 0x5E, 0x5F, 0x7E, 0x25, 0x20, 0x0D, 0x00, 0x7F, 0x41, 0x61, 0x5A, 0x6D] {
+        for base in [0x100u32, 0x200, 0x2000, 0x10000] {
+            v.push(char::from_u32(base + b).unwrap());
+        }
+    }
+    v
 }
 
 /// Run the script in a real VM: the logged items, then `3 c pos` if the run ended with an
@@ -465,6 +521,10 @@ fn gen_vmc(r: &mut Rng) -> VmcCase {
             // characters the commands themselves (and the end of line 1) do not need;
             // space, escape, letters, digits and CR only in the last command
             let mut chars: Vec<i64> = vec![0, 127, 1, 94, 126, 37, 77, 90, 233, 9, 63, 117, 66, 128];
+            let twins = wide_twins();
+            for _ in 0..8 {
+                chars.push(*r.pick(&twins) as i64);
+            }
             if last {
                 chars.extend([32, 92, 97, 53, 13, 65]);
             }
@@ -476,11 +536,22 @@ fn gen_vmc(r: &mut Rng) -> VmcCase {
         '?', '@', '\t', '\u{80}',
     ];
     let n_lines = 2 + r.below(4) as usize;
+    let twins = wide_twins();
     let mut text = String::new();
     for i in 0..n_lines {
         let n = r.below(7) as usize;
         for _ in 0..n {
-            text.push(*r.pick(CH));
+            match r.below(10) {
+                0 | 1 => text.push(*r.pick(&twins)),
+                2 => {
+                    text.push_str("\\a");
+                    text.push(*r.pick(&twins));
+                }
+                _ => text.push(*r.pick(CH)),
+            }
+        }
+        if r.chance(1, 4) {
+            text.push(*r.pick(&twins));
         }
         if i + 1 < n_lines || r.chance(1, 2) {
             text.push('\n');
@@ -771,7 +842,7 @@ impl Property for C03 {
         "lex: every string over the 14-character alphabet {\\ { ^ space LF CR NUL DEL é a 5 % ~ M} up to length 3 (quick) / 4 (thorough: every table for the strings with a doubled ^ a 5 M é CR or blank, the 6 plain tables for all; plus length 5 under the plain table with endlinechar CR/none) \
          x 44 category tables (plain with 6 default categories + 38 single changes of ^, space, CR, a, 5, M, é, DEL, NUL, \\, %) x endlinechar in {none, CR, a, ^, space}, report_end_of_line on (off for every 4th); \
          then random texts up to 48 characters (expanded codes, hex pairs, non-ASCII, blank lines, trailing blanks, no final newline) with random tables (plain / 25% changed / all random) and random endlinechar; \
-         vm: real VM<StdLibState> running text with \\catcode and \\endlinechar changes mid-file (vs the model); \
+         vm: real VM<StdLibState> running text with \\catcode and \\endlinechar changes mid-file, directly (…\\relax) or hidden in macros, with or without a blank before the following text which mostly starts with the recategorised character (10 categories x 8 characters x direct/macro systematically), compared with the Lean spec specSched under the per-call configuration (impl-vs-spec); wide characters U+0100/0200/2000/10000+b for 18 special ASCII bytes b in text, after and inside names, at line ends, and as \\catcode targets; \
          vmc: one line of \\catcode/\\endlinechar settings (endlinechar in {-2,-1,0,1,13,32,37,65,94,97,126,127,128,255,256} x every category for that character, NUL/DEL/^^A/... with 14 categories) then 2-5 plain lines, the VM's tokens of the lines after the first compared with the Lean spec under the final configuration. \
          Non-trivial = the source has at least 2 characters; distinct = distinct case string."
             .into()
@@ -819,7 +890,14 @@ impl Property for C03 {
         v.push(VmcCase { cmds: vec![(1, 1, 0), (0, 1, 13)], text: "A\nB".into() }.enc());
         // the lexer.rs module documentation example, through a VM
         v.push(
-            VmCase { text0: "A".into(), cmds: vec![(1, 'X' as i64, 0, "".into()), (0, 94, 12, "B^^M\nC".into())] }.enc(),
+            VmCase {
+                text0: "A".into(),
+                cmds: vec![
+                    Cmd { kind: 1, x: 'X' as i64, y: 0, sep: true, text: "".into() },
+                    Cmd { kind: 0, x: 94, y: 12, sep: true, text: "B^^M\nC".into() },
+                ],
+            }
+            .enc(),
         );
         v
     }
@@ -872,6 +950,31 @@ impl Property for C03 {
                 for &c in VMC_CATS {
                     v.push(VmcCase { cmds: vec![(0, e, c), (1, e, 0)], text: "A\nB\nC".into() }.enc());
                     v.push(VmcCase { cmds: vec![(1, e, 0), (0, e, c)], text: "A \n\nB^^@^^?\nC".into() }.enc());
+                }
+            }
+        }
+        // wide characters whose low byte is a special ASCII character: categories are per code
+        // point. Plain configuration, the wide character made active, its ASCII twin changed.
+        for t in wide_twins() {
+            let text = format!("a{t}b \\a{t} \\{t}x {t}\n{t}\n\\a{t}");
+            v.push(VmcCase { cmds: vec![], text: text.clone() }.enc());
+            v.push(VmcCase { cmds: vec![(0, t as i64, 13)], text: text.clone() }.enc());
+            v.push(VmcCase { cmds: vec![(0, t as i64, 11)], text: text.clone() }.enc());
+            let low = (t as u32 & 0xff) as i64;
+            if [0x5E, 0x7E, 0x25, 0x00, 0x7F, 0x5A, 0x24, 0x26, 0x23, 0x5F].contains(&low) {
+                v.push(VmcCase { cmds: vec![(0, low, 12)], text: text.clone() }.enc());
+                v.push(VmcCase { cmds: vec![(0, low, 11), (0, t as i64, 14)], text }.enc());
+            }
+        }
+        // just in time: a control word immediately followed by the character whose category
+        // its execution changes, directly (\catcode…\relax) and hidden in a macro
+        for x in ['@', '%', '~', 'Z', '?', '^', 'é', '\u{141}'] {
+            for y in [11i64, 12, 14, 0, 9, 13, 10, 5, 7, 15] {
+                for kind in [0i64, 2] {
+                    for sep in [false, true] {
+                        let text = format!("{x}{x}a {x}\n{x}");
+                        v.push(VmCase { text0: format!("{x}"), cmds: vec![Cmd { kind, x: x as i64, y, sep, text }] }.enc());
+                    }
                 }
             }
         }
@@ -997,53 +1100,84 @@ impl Property for C03 {
                 }
                 out
             }
-            "vm" => {
-                let c = VmCase::dec(rest);
-                let (src, spans) = c.script();
+            "vm" | "vmj" => {
+                let c = VmCase::dec(rest, cmd == "vmj");
+                let (src, spans, triggers) = c.script();
                 out.nontrivial = !c.cmds.is_empty();
                 match caught(|| real_vm(&src)) {
                     Err(p) => out.fail(Kind::ImplPanic, "vm", format!("panic {}", strip_msg(&p)), format!("src {src:?}: VM panicked: {p}")),
                     Ok((table, eol, i)) => {
-                        // the configuration schedule
+                        // offsets -> (line, column)
+                        let mut starts = vec![0usize];
+                        for (k, ch) in src.chars().enumerate() {
+                            if ch == '\n' {
+                                starts.push(k + 1);
+                            }
+                        }
+                        // the request: cfg0, then per command the trigger and the configuration
+                        // in force once it has been delivered
                         let mut cur = Table { eol, dflt: 12, pairs: table };
-                        let mut sched = vec![(0usize, cur.clone())];
-                        for ((kind, x, y, _), (_, after)) in c.cmds.iter().zip(&spans) {
-                            if *kind == 0 {
-                                let ch = char::from_u32(*x as u32).unwrap();
+                        let mut req: Vec<i64> = vec![0, c.cmds.len() as i64];
+                        cur.enc(&mut req);
+                        for (cm, tr) in c.cmds.iter().zip(&triggers) {
+                            if cm.kind % 2 == 0 {
+                                let ch = char::from_u32(cm.x as u32).unwrap();
                                 match cur.pairs.iter_mut().find(|p| p.0 == ch) {
-                                    Some(p) => p.1 = *y as u8,
-                                    None => cur.pairs.insert(0, (ch, *y as u8)),
+                                    Some(p) => p.1 = cm.y as u8,
+                                    None => cur.pairs.insert(0, (ch, cm.y as u8)),
                                 }
                             } else {
-                                cur.eol = if (0..128).contains(x) { char::from_u32(*x as u32) } else { None };
+                                cur.eol = if (0..128).contains(&cm.x) { char::from_u32(cm.x as u32) } else { None };
                             }
-                            sched.push((*after, cur.clone()));
+                            let line = starts.iter().rposition(|st| *st <= tr.off).unwrap();
+                            req.extend([line as i64 + 1, (tr.off - starts[line]) as i64]);
+                            enc_text(&tr.name, &mut req);
+                            if cm.kind % 2 == 0 {
+                                req.extend([0, cm.x, cm.y]);
+                            } else {
+                                req.extend([1, cur.eol.map(|e| e as i64).unwrap_or(-1), 0]);
+                            }
                         }
-                        let m_all = parse_i64s(&drv.ask(&sched_request("sch", false, &sched, &src)));
+                        enc_text(&src, &mut req);
+                        let reply = drv.ask(&format!("sps {}", join(&req)));
+                        let (m_all, s_all) = reply.split_once('|').unwrap_or_else(|| panic!("driver reply malformed: {reply}"));
                         let filt = |items: &[i64]| vm_filter(items, &src, &spans);
-                        let m = filt(&m_all);
-                        tags_of(&mut out, &src, cur.eol, &m);
+                        let (m, s) = (filt(&parse_i64s(m_all.trim())), filt(&parse_i64s(s_all.trim())));
+                        tags_of(&mut out, &src, cur.eol, &s);
                         out.tag(format!("vm:cmds={}", c.cmds.len().min(3)));
-                        if i.last() == Some(&9) {
-                            out.tag("vm:other-error");
-                        }
-                        if filt(&i) != m {
-                            let i_f = filt(&i);
-                            // pre-fix behaviour?
-                            let reply = drv.ask(&sched_request("leg", false, &sched, &src));
-                            let mut sig = format!("vm differs: {}", diff_sig(&m, &i_f));
-                            let names = ["pre-fix C03-a (vm)", "pre-fix C03-b (vm)", "pre-fix C03-a and C03-b together (vm)"];
-                            for (p, n) in reply.split('|').zip(names) {
-                                if filt(&parse_i64s(p.trim())) == i_f {
-                                    sig = n.to_string();
-                                    break;
-                                }
+                        for cm in &c.cmds {
+                            out.tag(format!(
+                                "vm:{}{}",
+                                ["catcode", "endlinechar", "macro-catcode", "macro-endlinechar"][cm.kind as usize & 3],
+                                if cm.sep { "" } else { ":no-blank" }
+                            ));
+                            if !cm.sep && cm.kind % 2 == 0 && cm.text.chars().next().map(|ch| ch as i64) == Some(cm.x) {
+                                out.tag(format!("vm:next-char-recategorised-to={}", cm.y));
                             }
+                        }
+                        if m != s {
                             out.fail(
-                                Kind::ImplVsModel,
+                                Kind::ModelVsSpec,
                                 "vm",
-                                sig,
-                                format!("src {src:?}\nmodel: {}\ncode:  {}", join(&m), join(&i_f)),
+                                format!("model vs specSched: {}", diff_sig(&s, &m)),
+                                format!("src {src:?}\nspec:  {}\nmodel: {}", join(&s), join(&m)),
+                            );
+                        }
+                        let i_f = filt(&i);
+                        let errored = split_items(&i_f).last().map(|it| it[0] == 9).unwrap_or(false);
+                        let agrees = if errored {
+                            // a non-lexer error ended the run: what was delivered before it
+                            out.tag("vm:other-error");
+                            s.starts_with(&i_f[..i_f.len() - 1])
+                        } else {
+                            i_f == s
+                        };
+                        if !agrees {
+                            out.fail(
+                                Kind::ImplVsSpec,
+                                "vm",
+                                format!("vm just-in-time: tokens differ from TeX under the configuration in force at each call: {}", diff_sig(&s, &i_f)),
+                                format!("program {src:?}\nwant (TeX, specSched): {}\ngot (VM):              {}", join(&s), join(&i_f)),
                             );
                         }
                     }
@@ -1097,19 +1231,25 @@ impl Property for C03 {
                     c.push(VmcCase { text: t, ..vc.clone() }.enc());
                 }
             }
-            "vm" => {
-                let vc = VmCase::dec(rest);
+            "vm" | "vmj" => {
+                let vc = VmCase::dec(rest, cmd == "vmj");
                 for i in 0..vc.cmds.len() {
                     let mut d = vc.clone();
-                    let (_, _, _, t) = d.cmds.remove(i);
+                    let t = d.cmds.remove(i).text;
                     if i == 0 {
                         d.text0.push('\n');
                         d.text0.push_str(&t);
                     } else {
-                        d.cmds[i - 1].3.push('\n');
-                        d.cmds[i - 1].3.push_str(&t);
+                        d.cmds[i - 1].text.push('\n');
+                        d.cmds[i - 1].text.push_str(&t);
                     }
                     c.push(d.enc());
+                    // the command without what follows it
+                    let mut d = vc.clone();
+                    d.cmds.truncate(i + 1);
+                    if d.cmds.len() < vc.cmds.len() {
+                        c.push(d.enc());
+                    }
                 }
                 let drop_char = |s: &str| -> Vec<String> {
                     let cs: Vec<char> = s.chars().collect();
@@ -1117,13 +1257,16 @@ impl Property for C03 {
                         .map(|i| cs.iter().enumerate().filter(|(j, _)| *j != i).map(|(_, c)| *c).collect())
                         .collect()
                 };
+                if !vc.text0.is_empty() {
+                    c.push(VmCase { text0: String::new(), ..vc.clone() }.enc());
+                }
                 for s in drop_char(&vc.text0) {
                     c.push(VmCase { text0: s, ..vc.clone() }.enc());
                 }
                 for i in 0..vc.cmds.len() {
-                    for s in drop_char(&vc.cmds[i].3) {
+                    for s in drop_char(&vc.cmds[i].text) {
                         let mut d = vc.clone();
-                        d.cmds[i].3 = s;
+                        d.cmds[i].text = s;
                         c.push(d.enc());
                     }
                 }
@@ -1185,28 +1328,63 @@ fn vm_filter(items: &[i64], src: &str, spans: &[(usize, usize)]) -> Vec<i64> {
 
 fn gen_vm(r: &mut Rng) -> VmCase {
     // text over characters that cannot form a defined command name or a brace
-    const CH: &[char] = &['\\', '^', '^', ' ', '\n', '\r', '\0', 'é', 'a', '5', '%', '~', 'M', 'Z', 'u', '?', '\t'];
-    let text = |r: &mut Rng| -> String {
+    const CH: &[char] = &['\\', '^', '^', ' ', '\n', '\r', '\0', 'é', 'a', '5', '%', '~', 'M', 'Z', 'u', '?', '\t', '@', '\x7f'];
+    let twins = wide_twins();
+    let text = |r: &mut Rng, first: Option<char>| -> String {
         let n = r.below(10) as usize;
-        (0..n).map(|_| *r.pick(CH)).collect()
+        let mut s = String::new();
+        if let Some(c) = first {
+            s.push(c);
+        }
+        for _ in 0..n {
+            match r.below(12) {
+                0 | 1 => s.push(*r.pick(&twins)),
+                // a wide character inside / right after a name, and at the end of a line
+                2 => {
+                    s.push_str("\\a");
+                    s.push(*r.pick(&twins));
+                }
+                3 => {
+                    s.push(*r.pick(&twins));
+                    s.push('\n');
+                }
+                _ => s.push(*r.pick(CH)),
+            }
+        }
+        s
     };
-    let text0 = text(r);
+    let text0 = text(r, None);
     let k = r.below(4) as usize;
+    let cats: &[i64] = &[11, 12, 14, 0, 9, 13, 10, 5, 7, 15, 3, 4, 6, 8];
     let mut cmds = vec![];
     for i in 0..k {
         let last = i + 1 == k;
-        let (kind, x, y) = if r.chance(1, 4) {
+        let via_macro = r.chance(2, 5);
+        let (kind, x, y) = if r.chance(1, 5) {
             (1, *r.pick(&[-1i64, 13, 97, 94, 32, 77, 37, 200, 127, 128, 0]), 0)
         } else {
-            // characters the commands themselves do not need; space and escape only last
-            let mut chars: Vec<i64> = vec![94, 126, 37, 77, 90, 0, 233, 13, 117, 63, 9, 127];
+            // characters the commands themselves do not need; some of those only last
+            let mut chars: Vec<i64> = vec![64, 64, 94, 126, 37, 37, 77, 90, 0, 233, 13, 117, 63, 9, 127];
+            for _ in 0..6 {
+                chars.push(*r.pick(&twins) as i64);
+            }
             if last {
-                chars.extend([32, 92, 97, 53]);
+                chars.extend([32, 92, 97, 53, 109, 65]);
             }
             // no begin/end group (the VM handles those itself)
-            (0, *r.pick(&chars), *r.pick(&[0i64, 5, 7, 9, 10, 11, 12, 13, 14, 15, 3, 4, 6, 8]))
+            (0, *r.pick(&chars), *r.pick(cats))
         };
-        cmds.push((kind, x, y, text(r)));
+        let kind = kind + if via_macro { 2 } else { 0 };
+        let sep = r.chance(1, 3);
+        // mostly: the character right after the control word is the one it recategorises
+        let first = if kind % 2 == 0 && r.chance(3, 4) {
+            char::from_u32(x as u32)
+        } else if r.chance(1, 3) {
+            Some(*r.pick(&['@', '%', 'Z', '~', '^', '\\', ' ']))
+        } else {
+            None
+        };
+        cmds.push(Cmd { kind, x, y, sep, text: text(r, first) });
     }
     VmCase { text0, cmds }
 }
